@@ -88,20 +88,46 @@ Proof.
   - split; [exact I|]. split; [auto|]. intros x Hx Ex. exfalso. apply (find_none _ _ F) in Hx. apply N.eqb_neq in Hx. contradiction.
 Qed.
 
+(* ---- SideChainPow replacement *)
+Lemma pool_remove_txs_sub p t x : In x (p_txs (pool_remove p t)) -> In x (p_txs p).
+Proof.
+  unfold pool_remove. destruct (find (fun y => t_id y =? t_id t) (p_txs p)); [|auto].
+  simpl. intros H. apply filter_In in H. tauto.
+Qed.
+
+Lemma pool_replace_fold_inv (p : pool) (g : N) (l : list tx) : forall q, pinv q -> (forall x, In x (p_txs q) -> In x (p_txs p)) ->
+  pinv (fold_left (fun p0 x => if same_pow g x then pool_remove p0 x else p0) l q) /\
+  forall x, In x (p_txs (fold_left (fun p0 x => if same_pow g x then pool_remove p0 x else p0) l q)) -> In x (p_txs p).
+Proof.
+  induction l as [|y r IH]; intros q Iq Sq; simpl; [split; assumption|].
+  apply IH.
+  - destruct (same_pow g y); [apply (pool_remove_inv q y Iq)|exact Iq].
+  - intros x Hx. destruct (same_pow g y); [apply Sq; eapply pool_remove_txs_sub; exact Hx|now apply Sq].
+Qed.
+
+Lemma pool_replace_pow_inv p t : pinv p ->
+  pinv (pool_replace_pow p t) /\ forall x, In x (p_txs (pool_replace_pow p t)) -> In x (p_txs p).
+Proof.
+  intros I. unfold pool_replace_pow. destruct (t_side t); try (split; [exact I|auto]).
+  apply pool_replace_fold_inv; auto.
+Qed.
+
 (* ---- append *)
 Lemma pool_append_inv mat cur s p t : pinv p -> pinv (fst (pool_append mat cur s p t)).
 Proof.
-  intros I. unfold pool_append. destruct (existsb (fun x => t_id x =? t_id t) (p_txs p)) eqn:Edup; [exact I|].
-  destruct (tx_sanity_ok t && tx_context_ok mat cur s t && negb (existsb (slot_has p) (t_ins t))) eqn:G; [|exact I].
-  rewrite !andb_true_iff in G. destruct G as [[Gs _] Gslot]. simpl.
+  intros I0. unfold pool_append. destruct (existsb (fun x => t_id x =? t_id t) (p_txs p)) eqn:Edup; [exact I0|].
+  destruct (tx_sanity_ok t && tx_context_ok mat cur s t) eqn:G; [|exact I0].
+  destruct (pool_replace_pow_inv p t I0) as [I Hsub]. set (p1 := pool_replace_pow p t) in *.
+  destruct (negb (existsb (slot_has p1) (t_ins t))) eqn:Gslot; [|exact I].
+  rewrite andb_true_iff in G. destruct G as [Gs _]. simpl.
   assert (Hdf : NoDup (t_ins t)).
   { unfold tx_sanity_ok in Gs. rewrite !andb_true_iff in Gs. destruct Gs as [_ Gd]. now apply (dup_free_NoDup op_eqb op_eqb_eq). }
-  assert (Hnew : ~ In (t_id t) (ids (p_txs p))).
-  { intros Hin. unfold ids in Hin. apply in_map_iff in Hin. destruct Hin as [x [E Hx]].
+  assert (Hnew : ~ In (t_id t) (ids (p_txs p1))).
+  { intros Hin. unfold ids in Hin. apply in_map_iff in Hin. destruct Hin as [x [E Hx]]. apply Hsub in Hx.
     assert (existsb (fun x => t_id x =? t_id t) (p_txs p) = true) by (apply existsb_exists; exists x; split; [exact Hx|now apply N.eqb_eq]). congruence. }
-  assert (Hfree : forall op, In op (t_ins t) -> ~ In op (pool_inputs p)).
+  assert (Hfree : forall op, In op (t_ins t) -> ~ In op (pool_inputs p1)).
   { intros op Hop Hin. unfold pool_inputs in Hin. apply in_flat_map in Hin. destruct Hin as [x [Hx Hox]].
-    apply negb_true_iff in Gslot. assert (existsb (slot_has p) (t_ins t) = true); [|congruence].
+    apply negb_true_iff in Gslot. assert (existsb (slot_has p1) (t_ins t) = true); [|congruence].
     apply existsb_exists. exists op. split; [exact Hop|]. unfold slot_has. apply existsb_exists. exists (op, t_id x).
     split; [apply (pi_slot _ I); exists x; auto|now apply op_eqb_eq]. }
   constructor; simpl.
@@ -187,14 +213,20 @@ Proof.
   apply IH. now apply pool_step_inv.
 Qed.
 
-(* a transaction that spends an outpoint already claimed by a pool member is refused *)
+(* a transaction (of any type but SideChainPow, which first evicts the pool's
+   SideChainPow transactions of its own side chain) that spends an outpoint
+   already claimed by a pool member is refused and the pool is unchanged *)
 Theorem mempool_rejects_conflict mat cur s p t op :
-  pinv p -> In op (pool_inputs p) -> In op (t_ins t) -> pool_append mat cur s p t = (p, false).
+  pinv p -> (forall g, t_side t <> SPow g) ->
+  In op (pool_inputs p) -> In op (t_ins t) -> pool_append mat cur s p t = (p, false).
 Proof.
-  intros I Hp Ht. unfold pool_append. destruct (existsb (fun x => t_id x =? t_id t) (p_txs p)); [reflexivity|].
+  intros I Hside Hp Ht. unfold pool_append. destruct (existsb (fun x => t_id x =? t_id t) (p_txs p)); [reflexivity|].
+  assert (Ep : pool_replace_pow p t = p).
+  { unfold pool_replace_pow. destruct (t_side t) eqn:Es; try reflexivity. exfalso. now apply (Hside genesis). }
+  rewrite Ep.
   assert (E : existsb (slot_has p) (t_ins t) = true).
   { apply existsb_exists. exists op. split; [exact Ht|]. unfold pool_inputs in Hp. apply in_flat_map in Hp.
     destruct Hp as [x [Hx Hox]]. unfold slot_has. apply existsb_exists. exists (op, t_id x).
     split; [apply (pi_slot _ I); exists x; auto|now apply op_eqb_eq]. }
-  rewrite E. simpl. now rewrite andb_false_r.
+  rewrite E. simpl. destruct (tx_sanity_ok t && tx_context_ok mat cur s t); reflexivity.
 Qed.
